@@ -349,7 +349,21 @@ def even_median_pairs(precs, cut, n):
     return out
 
 
-def run_columns(groups, names, ns, minr, stab, fast, min_nb, avg_nb, min_samples, cut):
+class InProcessPool:
+    """stand-in for job_pool.JobPool (the third-party pool is absent here): same interface, jobs run at once, results in
+    submission order - which is what the real pool's checkPool returns"""
+
+    def __init__(self, *a, **k):
+        self.results = []
+
+    def applyAsync(self, f, fargs, *a, **k):
+        self.results.append(f(*fargs))
+
+    def checkPool(self, *a, **k):
+        return self.results
+
+
+def run_columns(groups, names, ns, minr, stab, fast, min_nb, avg_nb, min_samples, cut, threads=1):
     """LFQIntensityColumns.append_columns on several groups; returns per-group LFQ values, the graph handed to the per-group
     routine and the per-group routine's own results"""
     from picked_group_fdr.columns import lfq
@@ -360,7 +374,10 @@ def run_columns(groups, names, ns, minr, stab, fast, min_nb, avg_nb, min_samples
     pgr.num_silac_channels = ns if ns else 0
     pgr.num_tmt_channels = 0
     col = lfq.LFQIntensityColumns(minr, stab, fast_lfq=fast, fast_lfq_min_neighbors=min_nb, fast_lfq_avg_neighbors=avg_nb,
-                                  fast_lfq_min_samples=min_samples, num_threads=1)
+                                  fast_lfq_min_samples=min_samples, num_threads=threads)
+    real_pool = getattr(lfq, "JobPool", None)
+    if threads > 1:
+        lfq.JobPool = InProcessPool
     cap = {"graphs": [], "direct": []}
     real = lfq._getLFQIntensities
 
@@ -379,6 +396,8 @@ def run_columns(groups, names, ns, minr, stab, fast, min_nb, avg_nb, min_samples
             cap["msg"] = str(e)[:200]
     finally:
         lfq._getLFQIntensities = real
+        if threads > 1:
+            lfq.JobPool = real_pool
     cap["columns"] = [[float(x) for x in r.extraColumns] for r in pgr]
     return cap
 
@@ -418,6 +437,9 @@ class ColumnsSuite(Suite):
             nexp = rng.randint(3, 14)
             groups = [gen_case(rng, nexp, rng.randint(1, 6), consistent=rng.random() < 0.5) for _ in range(rng.randint(2, 4))]
             names = groups[0]["names"]
+            if rng.random() < 0.3:
+                # a group left without any precursor (the writer empties groups whose PSMs are all above the cutoff)
+                groups.insert(rng.randrange(len(groups) + 1), {"precs": []})
             yield {"groups": [g["precs"] for g in groups], "names": names, "cut": "1/64", "minr": rng.choice([1, 2, 2]),
                    "stab": rng.random() < 0.5, "fast": rng.random() < 0.75, "min_nb": rng.randint(1, 3), "avg_nb": rng.randint(2, 6),
                    "min_samples": rng.choice([2, 4, 10]), "seed": rng.randint(0, 10 ** 9)}
@@ -435,10 +457,10 @@ class ColumnsSuite(Suite):
             out.append(pl)
         return out
 
-    def _run(self, case, **kw):
+    def _run(self, case, threads=1, **kw):
         names = kw.get("names") or case["names"]
         return run_columns(self._groups(case, **kw), names, 0, case["minr"], case["stab"], case["fast"], case["min_nb"], case["avg_nb"],
-                           case["min_samples"], float(Fraction(case["cut"])))
+                           case["min_samples"], float(Fraction(case["cut"])), threads=threads)
 
     def impl(self, case):
         base = self._run(case)
@@ -449,6 +471,8 @@ class ColumnsSuite(Suite):
         res["renamed"] = self._run(case, names=ren)
         res["reordered"] = self._run(case, order=case["seed"])
         res["scaled"] = self._run(case, scale=8.0)
+        # --num_threads 2: the per-group jobs go through a pool (an in-process stand-in with the pool's interface); same columns
+        res["threaded"] = self._run(case, threads=2)
         if not case["fast"]:
             perm = list(range(n))
             random.Random(case["seed"]).shuffle(perm)
@@ -492,7 +516,7 @@ class ColumnsSuite(Suite):
 
     def py_property(self, case, out):
         base = out["base"]
-        for k in ("base", "renamed", "reordered", "scaled", "permuted"):
+        for k in ("base", "renamed", "reordered", "scaled", "permuted", "threaded"):
             if k in out and "raise" in out[k]:
                 return "lfq-columns-raised-" + out[k]["raise"]
         if base["columns"] != base["direct"]:
@@ -505,6 +529,8 @@ class ColumnsSuite(Suite):
                 return "lfq-not-proportional-on-consistent-data"
         if out["renamed"]["columns"] != base["columns"]:
             return "lfq-depends-on-experiment-names"
+        if "threaded" in out and out["threaded"]["columns"] != base["columns"]:
+            return "lfq-columns-differ-with-several-threads"
         for a, b in zip(out["reordered"]["columns"], base["columns"]):
             if not close_vec(a, b, 1e-9):
                 return "lfq-depends-on-precursor-order"
